@@ -1,6 +1,44 @@
-From Qib Require Import Compact.CompactProofs.
+(** C13 - compact encoding is exact on its stabiliser code space.
+
+    FULL STATEMENT (properties.jsonl): for any real symmetric on-site + nearest-neighbour hopping
+    operator on an open rectangular lattice of any shape,
+      (a) the compact-encoded qubit operator is Hermitian,
+      (b) it commutes with the product of edge operators around every lattice face,
+      (c) those loop products are the identity on faces carrying an auxiliary qubit and commuting
+          Hermitian involutions elsewhere,
+      (d) restricted to the joint +1 eigenspace of the loop products the encoded operator has
+          exactly the spectrum of the fermionic operator, every level repeated the same number of times.
+
+    WHAT IS PROVED HERE (over every commutative *-ring with i*i = -1, in particular C):
+      L1, ALL shapes (unbounded): the regenerated index functions / orientation table / weights equal
+        the model's (theorems C13_tie_...); V_j, E_ij exist for all vertices / nearest-neighbour pairs, are
+        Hermitian, E_ji = -E_ij, {E_ij,V_i} = {E_ij,V_j} = 0, [E_ij,V_k] = 0 otherwise; the assembled
+        operator equals  sum_i h_ii 1/2 (1 - V_i) + sum_{i<j} h_ij (i/2)(E_ij V_j - E_ij V_i)
+        and is Hermitian for real h (a); index maps of the face-centred lattice are mutually inverse and
+        edge_to_odd_face_index returns -1 or a valid auxiliary-face index.
+      L1', BOUNDED, all shapes r x c with 1 <= r, c <= 6 (names end in _bounded; one vm_compute over the
+        36 shapes lifted with forallb_forall): {E_ij,E_jk} = 0 for edges sharing one vertex,
+        [E_ij,E_kl] = 0 for disjoint edges; (b) and (c) on strings and on matrices; the loop product does
+        not depend on the starting corner / direction.
+    WHAT IS MISSING (C13 stays PARTIAL):
+      L2: (b), (c) and the edge-edge relations for ALL shapes.  Intended statement:
+          forall r c, 1 <= r -> 1 <= c -> rel_ok r c = true /\ loops_ok r c = true
+        (reduction to local neighbourhood types: supports have <= 3 sites and the letters depend only on
+        coordinate parities and boundary contact).  Not proved; only r, c <= 6 is.
+      (d): "relation set R  =>  same spectrum with uniform multiplicity on the joint +1 eigenspace" is the
+        Derby-Klassen representation theorem (Phys. Rev. B 104, 035118); it is background mathematics,
+        NOT proved here.  Clause (d) is only tested numerically by checks/C13.py (dense, <= 12 qubits).
+
+    [Run.GenCompact] is regenerated from /repo/src/qib/lattice/odd_face_centered_lattice.py and
+    /repo/src/qib/transform/compact_encoding.py on every run (gen/compact.py); the C13_tie_... theorems
+    below are therefore re-proved against what the code says now. *)
+From Qib Require Import Compact.CompactBounded Base.Inst.
+From Coq Require Import QArith.
 From Run Require Import GenCompact.
 Local Open Scope Z_scope.
+
+(* ------------------------------------------------------------------------------------------- *)
+(** * tie: regenerated definitions = hand model, for all integer arguments *)
 
 Ltac split_ifs :=
   repeat match goal with
@@ -8,10 +46,323 @@ Ltac split_ifs :=
          end.
 
 Theorem C13_tie_nsites : forall r c, gen_nsites r c = m_nsites r c.
-Proof. reflexivity. Qed.
+Proof. intros. unfold gen_nsites, m_nsites. f_equal. Qed.
+Print Assumptions C13_tie_nsites.
 
-Theorem C13_tie_edge_face : forall r c ix iy jx jy, gen_edge_face r c ix iy jx jy = m_edge_face r c ix iy jx jy.
+Theorem C13_tie_index_to_coord : forall r c i, gen_index_to_coord r c i = m_index_to_coord r c i.
+Proof. intros. unfold gen_index_to_coord, m_index_to_coord. cbv zeta. split_ifs; reflexivity. Qed.
+Print Assumptions C13_tie_index_to_coord.
+
+Theorem C13_tie_coord_to_index : forall r c p, gen_coord_to_index r c p = m_coord_to_index r c p.
+Proof.
+  intros r c [a b|x y]; unfold gen_coord_to_index, m_coord_to_index, m_face_index; [reflexivity|].
+  split_ifs; reflexivity.
+Qed.
+Print Assumptions C13_tie_coord_to_index.
+
+Theorem C13_tie_edge_face : forall r c ix iy jx jy,
+  gen_edge_face r c ix iy jx jy = m_edge_face r c ix iy jx jy.
 Proof.
   intros. unfold gen_edge_face, m_edge_face, m_edge_face_xy, is_nn. cbv zeta.
-  split_ifs; try reflexivity.
+  split_ifs; reflexivity.
+Qed.
+Print Assumptions C13_tie_edge_face.
+
+Theorem C13_tie_vertex_desc : forall j, gen_vertex_desc j = m_vertex_desc j.
+Proof. reflexivity. Qed.
+Print Assumptions C13_tie_vertex_desc.
+
+(** the orientation table (decision tree by row / column parity, auxiliary-qubit letter) *)
+Theorem C13_tie_edge_desc : forall ii jj ff ix iy jx jy,
+  gen_edge_desc ii jj ff ix iy jx jy = m_edge_desc ii jj ff ix iy jx jy.
+Proof.
+  intros. unfold gen_edge_desc, m_edge_desc, is_nn. cbv zeta.
+  split_ifs; cbn [negb] in *; try reflexivity; try discriminate.
+Qed.
+Print Assumptions C13_tie_edge_desc.
+
+(** weights of the term assembly: the source constants are -0.5, 0.5, 0.5j, -0.5j (stored doubled),
+    the hopping strings are E @ Vj then E @ Vi, the identity coefficient starts at 0 *)
+Theorem C13_tie_assembly :
+  gen_id_init = 0 /\ gen_w_vertex = (-1, 0) /\ gen_w_id = (1, 0)
+  /\ gen_hop = [(0, 2, (0, 1)); (0, 1, (0, -1))].
+Proof. repeat split. Qed.
+Print Assumptions C13_tie_assembly.
+
+(** the operators the code builds, written with the regenerated functions only *)
+Definition code_vertex (r c x y : Z) : option pstr :=
+  obind (gen_coord_to_index r c (CInt x y)) (fun k =>
+  obind (gen_vertex_desc k) (fun d => build (gen_nsites r c) d)).
+Definition code_edge (r c ix iy jx jy : Z) : option pstr :=
+  obind (gen_coord_to_index r c (CInt ix iy)) (fun ii =>
+  obind (gen_coord_to_index r c (CInt jx jy)) (fun jj =>
+  obind (gen_edge_face r c ix iy jx jy) (fun ff =>
+  obind (gen_edge_desc ii jj ff ix iy jx jy) (fun d => build (gen_nsites r c) d)))).
+
+Theorem C13_code_operators_are_model : forall r c ix iy jx jy,
+  code_vertex r c ix iy = m_vertex r c ix iy /\ code_edge r c ix iy jx jy = m_edge r c ix iy jx jy.
+Proof.
+  intros. split.
+  - unfold code_vertex, m_vertex. rewrite C13_tie_coord_to_index.
+    destruct (m_coord_to_index r c (CInt ix iy)); cbn [obind]; [|reflexivity].
+    rewrite C13_tie_vertex_desc, C13_tie_nsites. reflexivity.
+  - unfold code_edge, m_edge. rewrite C13_tie_nsites.
+    rewrite (C13_tie_coord_to_index r c (CInt ix iy)).
+    destruct (m_coord_to_index r c (CInt ix iy)) as [ii|]; cbn [obind].
+    2:{ destruct (negb _); reflexivity. }
+    rewrite (C13_tie_coord_to_index r c (CInt jx jy)).
+    destruct (m_coord_to_index r c (CInt jx jy)) as [jj|]; cbn [obind].
+    2:{ destruct (negb _); reflexivity. }
+    rewrite C13_tie_edge_face.
+    destruct (is_nn ix iy jx jy) eqn:NN; cbn [negb].
+    + destruct (m_edge_face r c ix iy jx jy) as [ff|]; cbn [obind]; [|reflexivity].
+      rewrite C13_tie_edge_desc. reflexivity.
+    + unfold m_edge_face. rewrite NN. reflexivity.
+Qed.
+Print Assumptions C13_code_operators_are_model.
+
+(* ------------------------------------------------------------------------------------------- *)
+(** * L1: all lattice shapes *)
+
+(** 1. V_j and E_ij exist for every vertex / nearest-neighbour pair of an r x c lattice (r, c >= 1) *)
+Theorem C13_operators_defined : forall r c ix iy jx jy,
+  0 <= ix < r -> 0 <= iy < c -> 0 <= jx < r -> 0 <= jy < c ->
+  (exists V, code_vertex r c ix iy = Some V) /\
+  (is_nn ix iy jx jy = true -> exists E, code_edge r c ix iy jx jy = Some E).
+Proof.
+  intros r c ix iy jx jy H1 H2 H3 H4.
+  destruct (C13_code_operators_are_model r c ix iy jx jy) as [-> ->]. split.
+  - apply vertex_defined; assumption.
+  - intros NN. apply edge_defined; assumption.
+Qed.
+Print Assumptions C13_operators_defined.
+
+(** 2. they are Hermitian (strings with even q on nsites qubits; matrices by C09) *)
+Theorem C13_operators_hermitian : forall (K : Scalar) (L : ScalarLaws K) r c ix iy jx jy P,
+  code_vertex r c ix iy = Some P \/ code_edge r c ix iy jx jy = Some P ->
+  wfp (nq r c) P /\ pherm P = true /\ hermitian (K:=K) (nq r c) (pmatrix P).
+Proof.
+  intros K L r c ix iy jx jy P H.
+  destruct (C13_code_operators_are_model r c ix iy jx jy) as [EV EE]. rewrite EV, EE in H.
+  assert (W : wfp (nq r c) P /\ pherm P = true).
+  { destruct H as [H|H]; [apply (vertex_wf _ _ _ _ _ H)|apply (edge_wf _ _ _ _ _ _ _ H)]. }
+  destruct W as [W Hh]. repeat split; try apply W; auto. apply pherm_sound. exact Hh.
+Qed.
+Print Assumptions C13_operators_hermitian.
+
+(** 3. E_ji = - E_ij *)
+Theorem C13_edge_antisymmetric : forall (K : Scalar) (L : ScalarLaws K) r c ix iy jx jy E,
+  code_edge r c ix iy jx jy = Some E ->
+  code_edge r c jx jy ix iy = Some (pneg E) /\
+  forall rr cc, pmatrix (K:=K) (pneg E) rr cc = sopp (pmatrix E rr cc).
+Proof.
+  intros K L r c ix iy jx jy E H.
+  destruct (C13_code_operators_are_model r c ix iy jx jy) as [_ EE]. rewrite EE in H.
+  destruct (C13_code_operators_are_model r c jx jy ix iy) as [_ ->].
+  split; [apply edge_swap; exact H|]. intros. apply pneg_matrix.
+Qed.
+Print Assumptions C13_edge_antisymmetric.
+
+(** 4. {E_ij, V_i} = {E_ij, V_j} = 0 and [E_ij, V_k] = 0 for k not in {i, j} *)
+Theorem C13_edge_vertex_relations : forall (K : Scalar) (L : ScalarLaws K) r c ix iy jx jy kx ky E V,
+  code_edge r c ix iy jx jy = Some E -> code_vertex r c kx ky = Some V ->
+  let endpoint := ((kx =? ix) && (ky =? iy)) || ((kx =? jx) && (ky =? jy)) in
+  pcommutes E V = negb endpoint /\
+  forall rr cc, length rr = nq r c -> length cc = nq r c ->
+    mmul (nq r c) (pmatrix (K:=K) E) (pmatrix V) rr cc
+    = (if endpoint then sopp (mmul (nq r c) (pmatrix V) (pmatrix E) rr cc)
+       else mmul (nq r c) (pmatrix V) (pmatrix E) rr cc).
+Proof.
+  intros K L r c ix iy jx jy kx ky E V HE HV. cbv zeta.
+  destruct (C13_code_operators_are_model r c ix iy jx jy) as [_ EE]. rewrite EE in HE.
+  destruct (C13_code_operators_are_model r c kx ky 0 0) as [EV _]. rewrite EV in HV.
+  pose proof (edge_vertex_commutation _ _ _ _ _ _ _ _ _ _ HE HV) as C.
+  destruct (edge_wf _ _ _ _ _ _ _ HE) as [WE _]. destruct (vertex_wf _ _ _ _ _ HV) as [WV _].
+  split; [exact C|]. intros rr cc Hr Hc.
+  destruct (((kx =? ix) && (ky =? iy)) || ((kx =? jx) && (ky =? jy))); cbn [negb] in C.
+  - apply (panticommutes_sound _ _ _ WE WV C rr cc Hr Hc).
+  - apply (pcommutes_sound _ _ _ WE WV C rr cc Hr Hc).
+Qed.
+Print Assumptions C13_edge_vertex_relations.
+
+(** 5. closed form of the assembled operator, as the code builds it (order of insertion and
+    merge-on-insert included in the model [encode]): entrywise
+      sum_i h_ii * 1/2 * (1 - V_i) + sum_{i<j} h_ij * (i/2) * (E_ij V_j - E_ij V_i)
+    summed over the terms of the field operator.  [half] is any scalar (1/2 in C), [isz] the test
+    `coeffs[i,j] == 0`, [symb] the entrywise symmetry test. *)
+Theorem C13_closed_form : forall (K : Scalar) (L : ScalarLaws K) (half : K) isz symb,
+  (forall w : K, isz w = true -> w = s0) ->
+  forall r c (hs : list (coeffs (K:=K))) op,
+    encode half isz symb r c hs = Some op ->
+    forall rr cc, length rr = nq r c -> length cc = nq r c ->
+      opmatrix op rr cc = lsum (map (fun h => spec_entry half r c h rr cc) hs).
+Proof. intros K L half isz symb Hz r c hs op. apply encode_closed_form. exact Hz. Qed.
+Print Assumptions C13_closed_form.
+
+(** 6. clause (a): the encoded operator is Hermitian for real coefficients, every shape *)
+Theorem C13_encoded_operator_hermitian : forall (K : Scalar) (L : ScalarLaws K) (half : K) isz symb,
+  sconj half = half ->
+  forall r c (hs : list (coeffs (K:=K))) op,
+    (forall h, In h hs -> forall i j, sconj (h i j) = h i j) ->
+    encode half isz symb r c hs = Some op -> hermitian (nq r c) (opmatrix op).
+Proof. intros K L half isz symb Hh r c hs op. apply encode_hermitian. exact Hh. Qed.
+Print Assumptions C13_encoded_operator_hermitian.
+
+(** 7. index maps of the face-centred lattice are mutually inverse; the face an edge is attached to
+    is -1 or a valid auxiliary-qubit index *)
+Theorem C13_index_maps_inverse : forall r c,
+  (forall i, 1 <= c -> 0 <= i < r * c ->
+     exists x y, gen_index_to_coord r c i = Some (CInt x y) /\ gen_coord_to_index r c (CInt x y) = Some i
+                 /\ 0 <= x < r /\ 0 <= y < c) /\
+  (forall x y, 0 <= x < r -> 0 <= y < c ->
+     exists i, gen_coord_to_index r c (CInt x y) = Some i /\ gen_index_to_coord r c i = Some (CInt x y)
+               /\ 0 <= i < r * c) /\
+  (forall i, 2 <= c -> r * c <= i < gen_nsites r c ->
+     exists x y, gen_index_to_coord r c i = Some (CHalf x y) /\ gen_coord_to_index r c (CHalf x y) = Some i
+                 /\ 0 <= x < r - 1 /\ 0 <= y < c - 1 /\ (x + y) mod 2 = 0) /\
+  (forall x y, 0 <= x < r - 1 -> 0 <= y < c - 1 -> (x + y) mod 2 = 0 ->
+     exists i, gen_coord_to_index r c (CHalf x y) = Some i /\ gen_index_to_coord r c i = Some (CHalf x y)
+               /\ r * c <= i < gen_nsites r c) /\
+  (forall ix iy jx jy f, gen_edge_face r c ix iy jx jy = Some f -> f = -1 \/ r * c <= f < gen_nsites r c).
+Proof.
+  intros r c. repeat split; intros.
+  - destruct (vertex_index_roundtrip r c i) as [x [y H']]; auto. exists x, y.
+    rewrite C13_tie_index_to_coord, C13_tie_coord_to_index. exact H'.
+  - destruct (vertex_coord_roundtrip r c x y) as [i H']; auto. exists i.
+    rewrite C13_tie_index_to_coord, C13_tie_coord_to_index. exact H'.
+  - rewrite C13_tie_nsites in *. destruct (face_index_roundtrip r c i) as [x [y H']]; auto. exists x, y.
+    rewrite C13_tie_index_to_coord, C13_tie_coord_to_index. exact H'.
+  - destruct (face_coord_roundtrip r c x y) as [i H']; auto. exists i.
+    rewrite C13_tie_index_to_coord, C13_tie_coord_to_index, C13_tie_nsites. exact H'.
+  - rewrite C13_tie_edge_face in *. rewrite C13_tie_nsites. eapply edge_face_valid; eauto.
+Qed.
+Print Assumptions C13_index_maps_inverse.
+
+(* ------------------------------------------------------------------------------------------- *)
+(** * L1': bounded, all shapes with 1 <= r, c <= 6 *)
+
+(** 8. {E_ij, E_jk} = 0 for edges sharing exactly one vertex, [E_ij, E_kl] = 0 otherwise *)
+Theorem C13_edge_edge_relations_bounded : forall (K : Scalar) (L : ScalarLaws K) r c,
+  1 <= r <= 6 -> 1 <= c <= 6 ->
+  forall ix iy jx jy kx ky lx ly E E',
+    code_edge r c ix iy jx jy = Some E -> code_edge r c kx ky lx ly = Some E' ->
+    let one_shared := Nat.eqb (shared ((ix, iy), (jx, jy)) ((kx, ky), (lx, ly))) 1 in
+    pcommutes E E' = negb one_shared /\
+    forall rr cc, length rr = nq r c -> length cc = nq r c ->
+      mmul (nq r c) (pmatrix (K:=K) E) (pmatrix E') rr cc
+      = (if one_shared then sopp (mmul (nq r c) (pmatrix E') (pmatrix E) rr cc)
+         else mmul (nq r c) (pmatrix E') (pmatrix E) rr cc).
+Proof.
+  intros K L r c Hr Hc ix iy jx jy kx ky lx ly E E' HE HE'. cbv zeta.
+  destruct (C13_code_operators_are_model r c ix iy jx jy) as [_ EE]. rewrite EE in HE.
+  destruct (C13_code_operators_are_model r c kx ky lx ly) as [_ EE']. rewrite EE' in HE'.
+  pose proof (R_edge_edge_bounded r c Hr Hc _ _ _ _ _ _ _ _ _ _ HE HE') as C.
+  destruct (edge_wf _ _ _ _ _ _ _ HE) as [WE _]. destruct (edge_wf _ _ _ _ _ _ _ HE') as [WE' _].
+  split; [exact C|]. intros rr cc Hrr Hcc.
+  destruct (Nat.eqb _ 1); cbn [negb] in C.
+  - apply (panticommutes_sound _ _ _ WE WE' C rr cc Hrr Hcc).
+  - apply (pcommutes_sound _ _ _ WE WE' C rr cc Hrr Hcc).
+Qed.
+Print Assumptions C13_edge_edge_relations_bounded.
+
+(** 9. clause (c) on strings: loop products (any starting corner, any direction) *)
+Theorem C13_loop_strings_bounded : forall r c, 1 <= r <= 6 -> 1 <= c <= 6 ->
+  forall x y, 0 <= x < r - 1 -> 0 <= y < c - 1 ->
+  exists Lp, loop r c x y = Some Lp /\ wfp (nq r c) Lp /\
+    (forall s d, (s < 4)%nat -> loop_var r c x y s d = Some Lp) /\
+    (is_aux x y = true -> Lp = pidentity (m_nsites r c)) /\
+    (is_aux x y = false ->
+       pherm Lp = true /\ pmul Lp Lp = pidentity (m_nsites r c) /\ nontrivial Lp = true /\
+       (forall x' y' Lp', 0 <= x' < r - 1 -> 0 <= y' < c - 1 -> loop r c x' y' = Some Lp' ->
+                          pcommutes Lp Lp' = true) /\
+       (forall t p, In t (term_strings r c) -> t = Some p -> pcommutes p Lp = true)).
+Proof. exact loops_bounded. Qed.
+Print Assumptions C13_loop_strings_bounded.
+
+(** 10. the matrix of the loop string is the product of the four edge-operator matrices (any shape) *)
+Theorem C13_loop_matrix_is_product : forall (K : Scalar) (L : ScalarLaws K) r c x y Lp,
+  loop r c x y = Some Lp ->
+  exists E1 E2 E3 E4,
+    code_edge r c x y x (y + 1) = Some E1 /\ code_edge r c x (y + 1) (x + 1) (y + 1) = Some E2 /\
+    code_edge r c (x + 1) (y + 1) (x + 1) y = Some E3 /\ code_edge r c (x + 1) y x y = Some E4 /\
+    meq (K:=K) (nq r c) (pmatrix Lp)
+        (mmul (nq r c) (mmul (nq r c) (mmul (nq r c) (pmatrix E1) (pmatrix E2)) (pmatrix E3)) (pmatrix E4)).
+Proof.
+  intros K L r c x y Lp H.
+  destruct (loop_matrix_is_product (K:=K) r c x y Lp H) as [E1 [E2 [E3 [E4 [A [B [C [D M]]]]]]]].
+  exists E1, E2, E3, E4. unfold Eof in *. cbn [fst snd] in *.
+  repeat split; auto;
+    match goal with |- code_edge ?r ?c ?a ?b ?d ?e = _ =>
+      destruct (C13_code_operators_are_model r c a b d e) as [_ ->]; assumption end.
+Qed.
+Print Assumptions C13_loop_matrix_is_product.
+
+(** 11. clause (c) on matrices *)
+Theorem C13_loop_matrices_bounded : forall (K : Scalar) (L : ScalarLaws K) r c,
+  1 <= r <= 6 -> 1 <= c <= 6 ->
+  forall x y, 0 <= x < r - 1 -> 0 <= y < c - 1 ->
+  exists Lp, loop r c x y = Some Lp /\
+    (is_aux x y = true -> meq (K:=K) (nq r c) (pmatrix Lp) mid) /\
+    (is_aux x y = false ->
+       hermitian (K:=K) (nq r c) (pmatrix Lp) /\
+       meq (K:=K) (nq r c) (mmul (nq r c) (pmatrix Lp) (pmatrix Lp)) mid /\
+       (forall x' y' Lp', 0 <= x' < r - 1 -> 0 <= y' < c - 1 -> loop r c x' y' = Some Lp' ->
+                          commM (K:=K) (nq r c) (pmatrix Lp) (pmatrix Lp'))).
+Proof. intros K L. exact loop_matrices_bounded. Qed.
+Print Assumptions C13_loop_matrices_bounded.
+
+(** 12. clause (b): the encoded operator commutes with the loop product around every face *)
+Theorem C13_encoded_commutes_with_loops_bounded : forall (K : Scalar) (L : ScalarLaws K) r c,
+  1 <= r <= 6 -> 1 <= c <= 6 ->
+  forall (half : K) isz symb (hs : list (coeffs (K:=K))) op,
+    encode half isz symb r c hs = Some op ->
+    forall x y Lp, 0 <= x < r - 1 -> 0 <= y < c - 1 -> loop r c x y = Some Lp ->
+      commM (K:=K) (nq r c) (opmatrix op) (pmatrix Lp).
+Proof. intros K L. exact encoded_commutes_with_loops_bounded. Qed.
+Print Assumptions C13_encoded_commutes_with_loops_bounded.
+
+(** (a) + (b) + (c) together for r, c <= 6.  PARTIAL: clause (d) (spectrum on the code space) is the
+    Derby-Klassen theorem and is not proved; (b), (c) for r or c > 6 are not proved. *)
+Theorem C13_compact_encoding_partial_bounded : forall (K : Scalar) (L : ScalarLaws K) (half : K) isz symb,
+  sconj half = half ->
+  forall r c, 1 <= r <= 6 -> 1 <= c <= 6 ->
+  forall (hs : list (coeffs (K:=K))) op,
+    (forall h, In h hs -> forall i j, sconj (h i j) = h i j) ->
+    encode half isz symb r c hs = Some op ->
+    hermitian (nq r c) (opmatrix op) /\
+    forall x y, 0 <= x < r - 1 -> 0 <= y < c - 1 ->
+      exists Lp, loop r c x y = Some Lp /\
+        commM (K:=K) (nq r c) (opmatrix op) (pmatrix Lp) /\
+        (is_aux x y = true -> meq (K:=K) (nq r c) (pmatrix Lp) mid) /\
+        (is_aux x y = false ->
+           hermitian (K:=K) (nq r c) (pmatrix Lp) /\
+           meq (K:=K) (nq r c) (mmul (nq r c) (pmatrix Lp) (pmatrix Lp)) mid /\
+           (forall x' y' Lp', 0 <= x' < r - 1 -> 0 <= y' < c - 1 -> loop r c x' y' = Some Lp' ->
+                              commM (K:=K) (nq r c) (pmatrix Lp) (pmatrix Lp'))).
+Proof.
+  intros K L half isz symb Hh r c Hr Hc hs op Hreal H. split.
+  - apply (encode_hermitian half isz symb Hh r c hs op Hreal H).
+  - intros x y Hx Hy.
+    destruct (loop_matrices_bounded (K:=K) r c Hr Hc x y Hx Hy) as [Lp [HL [A B]]].
+    exists Lp. split; [exact HL|]. split; [|split; assumption].
+    apply (encoded_commutes_with_loops_bounded (K:=K) r c Hr Hc half isz symb hs op H x y Lp Hx Hy HL).
+Qed.
+Print Assumptions C13_compact_encoding_partial_bounded.
+
+(* ------------------------------------------------------------------------------------------- *)
+(** non-vacuity: a concrete non-trivial instance (3 x 3 lattice, 11 qubits, Gaussian-rational weights) *)
+Example C13_instance :
+  let h : coeffs (K:=QI) := fun i j =>
+      if Nat.eqb i j then ((3 # 2)%Q, 0%Q)
+      else if (Nat.eqb (i + 1) j && negb (Nat.eqb (Nat.modulo j 3) 0)) || Nat.eqb (i + 3) j
+           || (Nat.eqb (j + 1) i && negb (Nat.eqb (Nat.modulo i 3) 0)) || Nat.eqb (j + 3) i
+           then ((-1 # 1)%Q, 0%Q) else (0%Q, 0%Q) in
+  (exists E, code_edge 3 3 1 2 1 1 = Some E /\ pq E = 2 /\ nth 10 (pz E) false = true) /\
+  (exists Lp, loop 3 3 1 0 = Some Lp /\ nontrivial Lp = true /\ is_aux 1 0 = false) /\
+  option_map (@length _) (encode (K:=QI) ((1 # 2)%Q, 0%Q) (fun w => qi_eqb w (0%Q, 0%Q)) qi_eqb 3 3 [h]) = Some 34%nat.
+Proof.
+  cbv zeta. split; [|split].
+  - eexists. split; [vm_compute; reflexivity|]. split; vm_compute; reflexivity.
+  - eexists. split; [vm_compute; reflexivity|]. split; vm_compute; reflexivity.
+  - vm_compute. reflexivity.
 Qed.
